@@ -95,6 +95,8 @@ class Repo:
             raise AnalysisError('package directory %s not found' % self.pkg)
         self.modules = {}
         self.digests = {}
+        from . import canon
+        parsed = {}
         for name in PY_MODULES:
             path = os.path.join(self.pkg, name + '.py')
             if not os.path.exists(path):
@@ -104,8 +106,14 @@ class Repo:
                 tree = ast.parse(src, filename=path)
             except SyntaxError as e:
                 raise AnalysisError('%s does not parse: %s' % (path, e))
-            from . import canon
-            self.canon_notes = getattr(self, 'canon_notes', []) + canon.canonicalise(name, tree)
+            parsed[name] = (path, tree, src)
+        # (what spans modules first: a new property of one module read in another)
+        self.canon_notes = canon.properties_back({n: t for n, (p_, t, s_) in parsed.items()})
+        new_literals = {n: canon.new_module_literals(t, (canon.shapes().get(n, {}).get('__module__') or {}).get('globals'))
+                        for n, (p_, t, s_) in parsed.items()}
+        for name in PY_MODULES:
+            path, tree, src = parsed[name]
+            self.canon_notes = self.canon_notes + canon.canonicalise(name, tree, new_literals)
             self.modules[name] = Module(name, path, tree, src)
             self.digests[name] = hashlib.sha256(src.encode()).hexdigest()[:16]
         for name in PYX_MODULES:
